@@ -243,6 +243,14 @@ func ringSimilar(a, b []Point, e float64) bool {
 	if len(a) == 0 {
 		return true
 	}
+	// The matching below skips the last point of each ring, which repeats the
+	// first one, and tolerates a different start vertex. Both only make sense
+	// for closed rings; if either ring is spelled without the closing point,
+	// the two are compared point by point.
+	closed := func(r []Point) bool { return len(r) > 1 && pointSimilar(r[0], r[len(r)-1], e) }
+	if !closed(a) || !closed(b) {
+		return pointsSimilar(a, b, e)
+	}
 	ia0 := minPt(a)
 	n := len(b)
 	if n > 1 {
